@@ -154,3 +154,101 @@ Proof.
     + destruct (Nat.leb_spec (length (lanes s)) k); [discriminate|lia].
   - cbn [step]. rewrite E. discriminate.
 Qed.
+
+(* ---------- an uninterrupted Status() call ---------- *)
+Definition status_labels (o n : nat) : list label :=
+  StatusBegin o :: map (StatusReadLen o) (seq 0 n) ++ [StatusReadCnt o; StatusReadPanic o].
+
+Lemma skipn_nth {A} (l : list A) k a : nth_error l k = Some a -> skipn k l = a :: skipn (S k) l.
+Proof.
+  revert k; induction l as [|h tl IH]; intros [|k] H; cbn [nth_error] in H; try discriminate.
+  - injection H as ->. reflexivity.
+  - cbn [skipn]. rewrite (IH _ H). reflexivity.
+Qed.
+
+Lemma set_obs_id s : set_obs s (obs s) = s.
+Proof. destruct s; reflexivity. Qed.
+
+Lemma read_len_loop qs o m : forall k a s,
+  k + m = length (lanes s) -> ostate_of s o = OLen k a ->
+  exists ob, run qs s (map (StatusReadLen o) (seq k m)) = Some (set_obs s ob) /\
+             aget OIdle ob o = OLen (k + m) (a + list_sum (map (fun l => length (buf l)) (skipn k (lanes s)))).
+Proof.
+  induction m as [|m IH]; intros k a s Hlen Ho.
+  - exists (obs s). cbn [seq map run]. rewrite set_obs_id. split; [reflexivity|].
+    replace k with (length (lanes s)) at 2 by lia. rewrite skipn_all. cbn [map list_sum fold_right].
+    unfold ostate_of in Ho. rewrite Ho. f_equal; lia.
+  - cbn [seq map run step]. rewrite Ho, Nat.eqb_refl.
+    destruct (nth_error (lanes s) k) as [li|] eqn:Hn; [|apply nth_error_None in Hn; lia].
+    set (s2 := set_obs s (aset (obs s) o (OLen (S k) (a + length (buf li))))).
+    destruct (IH (S k) (a + length (buf li)) s2) as (ob & Hrun & Hob).
+    + subst s2; st_simpl. lia.
+    + subst s2; unfold ostate_of; st_simpl. rewrite aget_aset, Nat.eqb_refl. reflexivity.
+    + exists ob. split; [exact Hrun|]. rewrite Hob. subst s2; st_simpl.
+      rewrite (skipn_nth _ _ _ Hn). cbn [map]. change (list_sum (?x :: ?l)) with (x + list_sum l).
+      f_equal; lia.
+Qed.
+
+Theorem status_snapshot_exact qs s o :
+  ostate_of s o = OIdle ->
+  exists ob, run qs s (status_labels o (length (lanes s)))
+             = Some (set_snaps (set_obs s ob) ((o, pending_of s, last_panic s) :: snaps s))
+             /\ aget OIdle ob o = OIdle.
+Proof.
+  intros Ho. unfold status_labels. cbn [run step]. rewrite Ho.
+  set (s1 := set_obs s (aset (obs s) o (OLen 0 0))).
+  destruct (read_len_loop qs o (length (lanes s)) 0 0 s1) as (ob & Hrun & Hob).
+  { subst s1; st_simpl. lia. }
+  { subst s1; unfold ostate_of; st_simpl. rewrite aget_aset, Nat.eqb_refl. reflexivity. }
+  rewrite run_app. subst s1. st_simpl_in Hrun. st_simpl_in Hob. rewrite Hrun.
+  cbn [run step]. unfold ostate_of. st_simpl. rewrite Hob. cbn [skipn plus].
+  rewrite Nat.leb_refl. st_simpl. rewrite aget_aset, Nat.eqb_refl.
+  eexists. split; [unfold pending_of; reflexivity|]. rewrite aget_aset, Nat.eqb_refl. reflexivity.
+Qed.
+
+(* ---------- the panic slot is never cleared ---------- *)
+Lemma step_panic_stable qs s l s' :
+  last_panic s <> None -> step qs s l = Some s' ->
+  last_panic s' <> None /\ exists new, snaps s' = new ++ snaps s /\ Forall (fun x => snd x <> None) new.
+Proof.
+  intros HP Hs.
+  step_cases Hs s' l; try (split; [first [exact HP | discriminate] | exists []; split; [reflexivity|constructor]]).
+  split; [exact HP|]. eexists [_]. split; [reflexivity|]. constructor; [exact HP|constructor].
+Qed.
+
+Theorem last_panic_stable qs ls : forall s s',
+  last_panic s <> None -> run qs s ls = Some s' ->
+  last_panic s' <> None /\ exists new, snaps s' = new ++ snaps s /\ Forall (fun x => snd x <> None) new.
+Proof.
+  induction ls as [|l r IH]; cbn [run]; intros s s' HP Hr.
+  - injection Hr as <-. split; [exact HP|]. exists []. split; [reflexivity|constructor].
+  - destruct (step qs s l) as [s1|] eqn:Hs; [|discriminate].
+    destruct (step_panic_stable _ _ _ _ HP Hs) as (HP1 & n1 & E1 & F1).
+    destruct (IH _ _ HP1 Hr) as (HP2 & n2 & E2 & F2).
+    split; [exact HP2|]. exists (n2 ++ n1). split.
+    + rewrite E2, E1, app_assoc. reflexivity.
+    + apply Forall_app. split; assumption.
+Qed.
+
+(* ---------- after shutdown ---------- *)
+Lemma all_dead_at_rest s : all_dead s -> at_rest s = true.
+Proof.
+  unfold all_dead, at_rest. intros H. apply forallb_forall. intros [b0 q0 w0] Hin.
+  rewrite Forall_forall in H. destruct (H _ Hin) as [Hq _]. cbn [q] in *. destruct q0; try discriminate; reflexivity.
+Qed.
+
+Theorem pending_after_shutdown qs n ls s :
+  run qs (init n) ls = Some s -> all_dead s ->
+  pending_of s = length (accepted s) - length (started s).
+Proof. intros Hr Hd. apply (pending_exact _ _ _ _ Hr). apply all_dead_at_rest. exact Hd. Qed.
+
+Corollary status_snapshot_at_rest qs n ls s o :
+  run qs (init n) ls = Some s -> at_rest s = true -> ostate_of s o = OIdle ->
+  exists ob, run qs s (status_labels o n)
+             = Some (set_snaps (set_obs s ob)
+                       ((o, length (accepted s) - length (started s), last_panic s) :: snaps s)).
+Proof.
+  intros Hr Hrest Ho. destruct (status_snapshot_exact qs s o Ho) as (ob & Hrun & _).
+  rewrite (reachable_length _ _ _ _ Hr) in Hrun. rewrite (pending_exact _ _ _ _ Hr Hrest) in Hrun.
+  exists ob. exact Hrun.
+Qed.
